@@ -87,9 +87,10 @@ def _check_result(call, idx, out, where):
             out.append(Disc('expected-RemoteError', '%s: call %d got %r' % (where, idx, r)))
         elif exp[1] is not None:
             e = r.value
-            if e.errName != exp[1] or e.message != exp[2] or not R.nf_equal(list(e.values), exp[3]):
-                out.append(Disc('RemoteError-content', '%s: call %d expected %r got (%r, %r, %r)' % (
-                    where, idx, exp[1:], e.errName, e.message, e.values)))
+            got = (getattr(e, 'errName', '<no errName>'), getattr(e, 'message', '<no message>'), getattr(e, 'values', None))
+            if got[0] != exp[1] or got[1] != exp[2] or not isinstance(got[2], (list, tuple)) or \
+                    not R.nf_equal(list(got[2]), exp[3]):
+                out.append(Disc('RemoteError-content', '%s: call %d expected %r got %r' % (where, idx, exp[1:], got)))
     elif exp[0] == 'timeout':
         if not (isinstance(r, Failure) and isinstance(r.value, E.TimeOut)):
             out.append(Disc('expected-TimeOut', '%s: call %d got %r' % (where, idx, r)))
@@ -256,7 +257,7 @@ def run_history(case):
                 if lost:
                     continue
                 lost = True
-                reason = N.lost_reason()
+                reason = N.lost_reason(opi)
                 for c in calls:
                     if c.expected is None:
                         c.expected = ('lost', reason)
